@@ -17,6 +17,10 @@ import (
 
 var sigma = []byte{' ', '\t', '\n', '"', '\\', '=', '<', 'a', 0xff}
 
+// sigma2: bytes that are NOT significant to the splitter but are "blank-like" to other tokenisers
+// (ASCII control whitespace, NUL, and the bytes of U+0085, U+00A0, U+3000): they are word bytes.
+var sigma2 = []byte{' ', '\t', 'a', '\r', '\v', '\f', 0x00, 0xc2, 0x85, 0xa0, 0xe3, 0x80}
+
 type call struct {
 	Args  []string
 	EOF   bool
@@ -97,6 +101,10 @@ func checkString(s string) *finding {
 	if left == -1 {
 		return &finding{"no-termination", "always terminates with arguments or an error", fmt.Sprintf("input %s: %d calls without reaching the end of the input", q(s), len(calls))}
 	}
+	// the string entry point is the reader entry point applied to the whole string
+	if f := checkSplitAgrees(s, calls[0]); f != nil {
+		return f
+	}
 	special := strings.ContainsAny(s, "\"\\") || strings.Contains(s, "=<<")
 	if !special {
 		// plain words: each line's blank-separated fields, byte for byte
@@ -149,6 +157,40 @@ func checkString(s string) *finding {
 	return nil
 }
 
+// checkSplitAgrees: SplitArguments(s) must give what the first ReadArguments call on s gives.
+func checkSplitAgrees(s string, first call) *finding {
+	var c call
+	func() {
+		defer func() {
+			if p := recover(); p != nil {
+				c.Panic = fmt.Sprint(p)
+			}
+		}()
+		args, eof, err := varutil.SplitArguments(s)
+		c.Args, c.EOF = args, eof
+		if err != nil {
+			c.Err = err.Error()
+		}
+	}()
+	if c.Panic != "" {
+		return &finding{"panic", "splitting any byte string never panics", fmt.Sprintf("SplitArguments(%s) panicked: %s", q(s), c.Panic)}
+	}
+	same := (c.Err == "") == (first.Err == "") && len(c.Args) == len(first.Args)
+	if same && c.Err == "" {
+		same = c.EOF == first.EOF
+		for i := range c.Args {
+			if c.Args[i] != first.Args[i] {
+				same = false
+			}
+		}
+	}
+	if !same {
+		return &finding{"split-differs-from-read", "words separated by blanks come back unchanged byte-for-byte (whichever entry point splits the line)",
+			fmt.Sprintf("input %s: SplitArguments = %q eof=%v err=%q, ReadArguments = %q eof=%v err=%q", q(s), c.Args, c.EOF, c.Err, first.Args, first.EOF, first.Err)}
+	}
+	return nil
+}
+
 // backslashesBenign: every backslash is followed by 'a' or by a newline that is followed by
 // a non-blank, and is not itself preceded by a backslash.
 func backslashesBenign(s string) bool {
@@ -180,7 +222,7 @@ func backslashesBenign(s string) bool {
 
 // ---- rendered argument lists ----
 
-var pool = []string{"a", "a b", "a\"b", "", "k=v", "\xff", "k=line1\nline2", "x=two words", "a\tb", "=", "<", "k=<x"}
+var pool = []string{"a", "a b", "a\"b", "", "k=v", "\xff", "k=line1\nline2", "x=two words", "a\tb", "=", "<", "k=<x", "k=1\u00a0m", "x\ry\vz"}
 
 func render(arg string, form int) (string, bool) {
 	switch form {
@@ -422,6 +464,38 @@ func run(c *fw.Ctx) {
 		}
 	}
 	_ = distinctOutcomes
+	// A2: all strings up to maxLen2 over the blank-like alphabet
+	maxLen2 := 4
+	if c.Thorough() {
+		maxLen2 = 5
+	}
+	c.R.Info["alphabet2"] = fmt.Sprintf("%q", string(sigma2))
+	c.R.Info["max_length2"] = maxLen2
+	var rec2 func()
+	rec2 = func() {
+		s := string(buf)
+		c.R.Evaluations++
+		c.Count("blank_like_strings", 1)
+		if f := checkString(s); f != nil {
+			report(f, witness{Raw: hexs(s)})
+		}
+		if len(buf) == maxLen2 {
+			return
+		}
+		for _, b := range sigma2 {
+			buf = append(buf, b)
+			rec2()
+			buf = buf[:len(buf)-1]
+		}
+	}
+	for _, b1 := range sigma2 {
+		item++
+		if !c.Mine(item) {
+			continue
+		}
+		buf = append(buf[:0], b1)
+		rec2()
+	}
 	// C: rendered lists
 	n := len(pool)
 	listItem := 0
@@ -538,7 +612,7 @@ func replay(wj json.RawMessage) (*fw.Violation, error) {
 
 func init() {
 	fw.Register(&fw.Check{ID: "C17", Level: "exploration",
-		Rule: "ALL byte strings of length <= 7 (quick) / <= 9 (thorough) over the alphabet {space, tab, newline, '\"', backslash, '=', '<', 'a', 0xff}: totality on every one (no panic, terminates, reader drained call by call); strings without quote/backslash/heredoc additionally against the plain-word reference (per-line blank-separated fields byte for byte, eof flags); strings whose backslashes precede a letter or a continuation newline against the argument-count reference. Plus every argument list of <= 3 arguments from a 12-entry pool rendered in every applicable form (bare, quoted, heredoc) with 4 separators (incl. backslash-newline), followed by a second command; plus InjectArgs mapping on each list; plus every heredoc body of <= 4 (quick) / <= 5 (thorough) symbols over {a, newline, E, O, F, space, 0xff} with marker EOF (bodies ending in empty lines or in a prefix of the marker included). distinct = inputs",
+		Rule: "ALL byte strings of length <= 7 (quick) / <= 9 (thorough) over the alphabet {space, tab, newline, '\"', backslash, '=', '<', 'a', 0xff}: totality on every one (no panic, terminates, reader drained call by call), SplitArguments agreeing with the first ReadArguments call; ALL strings of length <= 4 / <= 5 over the blank-like alphabet {space, tab, 'a', CR, VT, FF, NUL, 0xc2, 0x85, 0xa0, 0xe3, 0x80} (these are word bytes); strings without quote/backslash/heredoc additionally against the plain-word reference (per-line blank-separated fields byte for byte, eof flags); strings whose backslashes precede a letter or a continuation newline against the argument-count reference. Plus every argument list of <= 3 arguments from a 14-entry pool rendered in every applicable form (bare, quoted, heredoc) with 4 separators (incl. backslash-newline), followed by a second command; plus InjectArgs mapping on each list; plus every heredoc body of <= 4 (quick) / <= 5 (thorough) symbols over {a, newline, E, O, F, space, 0xff} with marker EOF (bodies ending in empty lines or in a prefix of the marker included). distinct = inputs",
 		Run: run, Replay: replay,
 		Assumptions: []string{"length bound as stated; the 'randomly beyond' part is not claimed", "content of words containing a bare backslash is unspecified (only totality and argument count are required)", "an empty heredoc body cannot be rendered by the reference quoting (text must be non-empty)"}})
 }
